@@ -4,6 +4,10 @@ import json, sys
 pid, wt = sys.argv[1], sys.argv[2]
 n = sys.argv[3] if len(sys.argv) > 3 else "3"
 p = [json.loads(l) for l in open('/verif/properties.jsonl') if json.loads(l)['id'] == pid][0]
+EXTRA = {
+ "C15": "NOTE on configuration: the worktree is configured with DEBUG=4 (config.h says `#define DEBUG 4`), so memory tracking (DEBUG >= 5) is compiled OUT of the default build and the suite never runs it. A demonstration for this property therefore has to compile the library sources itself at DEBUG=5: write demo.sh (argument $1 = the library root directory) which creates a temporary directory, copies $1/config.h into it with the DEBUG line changed to 5, compiles $1/src/*.c (except avl_tree.c) and demo.c with `-DHAVE_CONFIG_H -I<tmpdir> -I$1/include -I$1/include/libast -I$1` (the temporary directory FIRST so its config.h wins), links with the libraries listed below, runs the program with the runtime level set by the program itself (`libast_debug_level = 5;`) and exits with the program's exit status; demo.sh must exit 0 on the unmodified sources and non-zero with your change. The tracker's table is private (static in src/mem.c): a demo can observe it through MALLOC_DUMP() / spifmem_dump_mem_tables() output on stderr.",
+ "C20": "NOTE on configuration: the worktree is configured with DEBUG=4 (config.h says `#define DEBUG 4`). A demonstration that needs another compile-time level has to compile the library sources itself: write demo.sh (argument $1 = the library root directory) which creates a temporary directory, copies $1/config.h into it with the DEBUG line changed, compiles $1/src/*.c (except avl_tree.c) and demo.c with `-DHAVE_CONFIG_H -I<tmpdir> -I$1/include -I$1/include/libast -I$1` (the temporary directory FIRST so its config.h wins), links with the libraries listed below, runs the program and exits 0 on the unmodified sources and non-zero with your change.",
+}
 print(f"""You are helping to evaluate a test suite's blind spots for the C library LibAST (mej/libast). You work ONLY inside the scratch git worktree {wt} (a checkout of the library that is already configured: `make -C {wt}` builds it, `make -C {wt}/test test` runs its test suite; the suite always ends with one expected failure at "spif_module_load" - everything printed before that must say "passed"; the socket tests bind a fixed TCP port, so if a run stops early at a socket test with "Address already in use" another suite run on this machine is holding the port - wait a minute and run it again). Do not read or touch /repo or /verif or any other directory; everything you need is in {wt}.
 
 Here is a semantic property the library is supposed to satisfy:
@@ -11,6 +15,8 @@ Here is a semantic property the library is supposed to satisfy:
   Title: {p['title']}
   Statement: {p['statement']}
   Quantified over: {p['quantifier']['text']}
+
+{EXTRA.get(pid, "")}
 
 Your task: write {n} DIFFERENT small source changes ("seeded defects") to the library code under {wt}/src or {wt}/include, each of which
   (a) BREAKS the property above (for some input / history / configuration the statement covers),
